@@ -177,12 +177,16 @@ func genCase(t *rapid.T) Case {
 		inv.Field = rapid.SampledFrom([]string{"magic", "version", "type", "size"}).Draw(t, "field")
 		switch inv.Field {
 		case "magic":
-			inv.Magic = rapid.OneOf(rapid.SampledFrom([]uint32{0x42adde42, 0, 0xffffffff, 0x42dead43, 0x43dead42, 0x42dead00}), rapid.Uint32()).Draw(t, "magic")
+			inv.Magic = rapid.OneOf(rapid.SampledFrom([]uint32{0x42adde42, 0, 0xffffffff, 0x42dead43, 0x43dead42, 0x42dead00}), rapid.Uint32(),
+				rapid.Map(rapid.IntRange(0, 31), func(k int) uint32 { return 0x42dead42 ^ (1 << uint(k)) })).Draw(t, "magic")
 			if inv.Magic == 0x42dead42 {
 				inv.Magic = 0x42adde42
 			}
 		case "version":
-			inv.Version = uint16(rapid.IntRange(1, 65535).Draw(t, "version"))
+			// any non-zero version, with the values which differ from zero in one
+			// byte or one bit only well represented
+			inv.Version = uint16(rapid.OneOf(rapid.IntRange(1, 65535), rapid.SampledFrom([]int{1, 2, 0x80, 0xff, 0x100, 0x200, 0x8000, 0xff00, 0xffff}),
+				rapid.Map(rapid.IntRange(1, 255), func(k int) int { return k << 8 })).Draw(t, "version"))
 		case "type":
 			inv.Type = rapid.OneOf(rapid.Just(uint8(0)), rapid.Uint8Range(9, 255)).Draw(t, "badtype")
 		case "size":
